@@ -100,6 +100,24 @@ def page_oracle(c, _e=None):
     r2 = cp.css.CSSPageRule(selectorText=r.selectorText)
     if tuple(r2.specificity) != tuple(exp):
         return '@page %r re-parsed as %r reports %r' % (text, r.selectorText, r2.specificity)
+    # a long-lived rule whose specificity has been read and whose selector is then replaced (through cssText and through
+    # selectorText in turn) reports what a fresh rule reports
+    global _PAGE
+    if _PAGE is None:
+        _PAGE = [cp.css.CSSPageRule(selectorText=':first'), ':first', 0]
+    old = _PAGE[0].specificity
+    prev = _PAGE[1]
+    _PAGE[2] += 1
+    if _PAGE[2] % 2:
+        _PAGE[0].cssText = '@page %s { margin: 0 }' % text
+        how = 'cssText'
+    else:
+        _PAGE[0].selectorText = text
+        how = 'selectorText'
+    _PAGE[1] = text
+    if tuple(_PAGE[0].specificity) != tuple(exp):
+        return '@page rule holding %r (specificity read: %r) and then assigned %s=%r reports %r, expected %r' % (
+            prev, tuple(old), how, text, tuple(_PAGE[0].specificity), tuple(exp))
     return ''
 
 
@@ -122,6 +140,9 @@ def respell(rnd, text):
                 out.append(ch)
         return m.group(1) + ''.join(out)
     return re.sub(r'(::?)([a-z][a-z-]*)', one, text)
+
+
+_PAGE = None
 
 
 def gen_cases(tier, seed):
@@ -190,7 +211,7 @@ def run(tier, seed):
     cases, dist = gen_cases(tier, seed)
     res = corr.run('c16', cases, line_of, py_of, oracle, chunk=1500)
     pc = page_cases()
-    res2 = corr.run('c16p', pc, lambda c: 'numval -', lambda c: '~', page_oracle, chunk=100)
+    res2 = corr.run('c16p', pc + pc[::-1] + pc[::3], lambda c: 'numval -', lambda c: '~', page_oracle, chunk=100)
     broken = []
     for case, why in res['oracle_fail']:
         findings.add('selector', case[0], why)
